@@ -85,3 +85,20 @@ void h_pool_free_alloc(void) {
   VASSERT(o.f7 == 0 && o.f2 == count, "no allocator call, no new pool");
   if (count > 1) VWITNESS("multi"); else VWITNESS("single");
 }
+
+/* ---- shrinkToFit from any valid table state: afterwards capacity_ is the number of entries of the table block that is
+ * kept (so that the next addPool grows the table before writing past it), the last pool's capacity is its usage */
+void h_pool_shrink(void) {
+  struct S_POut g; memset(&g, 0, sizeof g); w_pool_clear(0, 1, 0, 0, &g); const unsigned M = g.f9, I = g.f12;
+  struct S_POut g2; memset(&g2, 0, sizeof g2); w_pool_alloc(0, 1, 0, 0, 0, 0, &g2); const unsigned C = g2.f11;
+  unsigned count = vin_u8(), capacity = vin_u8(), lu = vin_u8();
+  VASSUME(cap_ok(capacity, I, M) && capacity >= I && count <= capacity && count <= M && count <= 3 && lu <= C);
+  const unsigned heap = HEAPT; VASSUME(heap == (capacity > I));
+  struct S_POut o; memset(&o, 0, sizeof o); w_pool_shrink(count, capacity, heap, lu, &o);
+  VASSERT(o.f2 == count, "no pool appears or disappears");
+  if (heap) VASSERT(o.f3 == count || (count == capacity && o.f3 == capacity), "heap table: the recorded capacity is the size of the block that was kept");
+  else VASSERT(o.f3 == capacity && !(o.f6 & 1), "inline table untouched");
+  VASSERT(o.f3 >= o.f2, "capacity never below the number of pools");
+  if (count) VASSERT(o.f4 == lu && o.f5 == lu, "the last pool is trimmed to its usage");
+  if (heap) VWITNESS("heap"); else VWITNESS("inline");
+}
